@@ -98,4 +98,41 @@ mod verif_standins {
         let mut v = honest.clone(); v.public_key = other.public_key.clone();
         assert_ne!(chal(&honest), chal(&v), "STANDIN range parameters challenge: public key does not enter the challenge");
     }
+
+    /// C19 / C13: generated range parameters are valid for ordinary randomness and for streams with an all-zero window at
+    /// every scalar-draw offset; every digit signature has a base (sigma1) of its own; u^l is exactly 2^63
+    #[test]
+    fn standin_range_params_generation() {
+        use rand::RngCore;
+        assert_eq!((RP_PARAMETER_U as u128).pow(RP_PARAMETER_L as u32), 1u128 << 63, "STANDIN range parameters: u^l must be exactly 2^63 (u = {}, l = {})", RP_PARAMETER_U, RP_PARAMETER_L);
+        struct ZeroWindow { inner: rand::rngs::StdRng, fills: usize, start: usize, width: usize }
+        impl RngCore for ZeroWindow {
+            fn next_u32(&mut self) -> u32 { self.inner.next_u32() }
+            fn next_u64(&mut self) -> u64 { self.inner.next_u64() }
+            fn fill_bytes(&mut self, dest: &mut [u8]) {
+                self.inner.fill_bytes(dest);
+                if dest.len() == 64 {
+                    if self.fills >= self.start && self.fills < self.start + self.width { for b in dest.iter_mut() { *b = 0; } }
+                    self.fills += 1;
+                }
+            }
+            fn try_fill_bytes(&mut self, dest: &mut [u8]) -> Result<(), rand::Error> { self.fill_bytes(dest); Ok(()) }
+        }
+        impl rand::CryptoRng for ZeroWindow {}
+        let check = |p: &RangeConstraintParameters, what: &str| {
+            assert!(p.validate().is_ok(), "STANDIN RangeConstraintParameters::new: generated parameters fail their own validation ({})", what);
+            assert!(reference_validate(p), "STANDIN RangeConstraintParameters::new: some digit signature does not verify on its digit ({})", what);
+            for i in 0..128 { for j in 0..i {
+                assert!(p.digit_signatures[i].sigma1() != p.digit_signatures[j].sigma1(), "STANDIN RangeConstraintParameters::new: digit signatures {} and {} share their base sigma1 - signatures on non-digits can be derived ({})", j, i, what);
+            } }
+        };
+        let mut rng = rng();
+        check(&RangeConstraintParameters::new(&mut rng), "ordinary randomness");
+        for width in [1usize, 2] {
+            for start in (0..140).step_by(if width == 1 { 1 } else { 7 }) {
+                let mut zr = ZeroWindow { inner: rand::rngs::StdRng::seed_from_u64(11 + start as u64), fills: 0, start, width };
+                check(&RangeConstraintParameters::new(&mut zr), &format!("zero window at 64-byte draw #{} width {}", start, width));
+            }
+        }
+    }
 }
